@@ -32,9 +32,10 @@ let command name = match name with
   | "trim_start" -> cmd_trim_start | "trim_end" -> cmd_trim_end | "range" -> cmd_range
   | "uppercase" -> cmd_uppercase | "lowercase" -> cmd_lowercase | "less_than" -> cmd_less_than
   | "greater_than" -> cmd_greater_than
+  | "calc" -> (fun _ -> ROod)   (* calc is modelled on expression trees only (K lines) *)
   | _ -> failwith "unknown command"
 let () = iter_lines (fun line ->
-  match fields line with
+  try match fields line with
   | ["R"; name; args] -> print_endline (res (command name (list_of_field args)))
   | ["S"; "find"; s; t] -> print_endline (opt_n (spec_find (str_of_field s) (str_of_field t)))
   | ["S"; "rfind"; s; t] -> print_endline (opt_n (spec_rfind (str_of_field s) (str_of_field t)))
@@ -47,4 +48,5 @@ let () = iter_lines (fun line ->
         if not (c >= 0xD800 && c <= 0xDFFF) && is_ws (n_of_int c) then acc := n_of_int c :: !acc
       done;
       print_endline (field_of_str !acc)
-  | _ -> print_endline "BADLINE")
+  | _ -> print_endline "BADLINE"
+  with Failure m -> print_endline ("MODELFAIL " ^ m) | Not_found -> print_endline "MODELFAIL")
